@@ -62,77 +62,86 @@ RESP:
 	return fmt.Sprintf("a=%s r=%s closed=%s%s", j(as), j(rs), ca, cr)
 }
 
-// c07Race: free-running.  Per round a fresh query (acks requested, roomy channels) is registered through the
+// c07Race: free-running, 8 independent workers.  Per round a fresh query (acks requested, roomy channels) is registered through the
 // real registerQueryResponse; one goroutine delivers acks and responses of distinct senders the way the
-// memberlist packet handler does (hooked handleQueryResponse; every 8th reply through NotifyMsg), another
+// memberlist packet handler does (Delegate.NotifyMsg, messages encoded beforehand), another
 // calls the public QueryResponse.Close() at a varying moment.  A reply must be delivered or dropped: a send
 // on a closed stream panics ("send on closed channel") and is reported; so is a sender seen twice.
 func c07Race(n *qnode, rounds int) string {
-	const perRound = 1024
+	const perRound = 96 // small: every query object stays referenced by its (one hour) timer
+	const workers = 8
 	names := make([]string, perRound)
 	for i := range names {
 		names[i] = "r" + strconv.Itoa(i)
 	}
-	var firstPanic atomic.Value
-	deliver := func(lt serf.LamportTime, id uint32, from string, ack bool, viaMsg bool) {
-		defer func() {
-			if r := recover(); r != nil {
-				firstPanic.CompareAndSwap(nil, fmt.Sprint(r))
-			}
-		}()
-		if viaMsg {
-			n.msg(serf.VerifEncodeQueryResponse(lt, id, from, ack, nil))
-		} else {
-			serf.VerifHandleQueryResponse(n.s, lt, id, from, ack)
-		}
-	}
+	var firstBad atomic.Value
 	t0 := time.Now()
-	for round := 1; round <= rounds && firstPanic.Load() == nil && time.Since(t0) < 20*time.Second; round++ {
-		lt, id := serf.LamportTime(1000000+round), uint32(round)
-		q := serf.VerifRegisterQuery2(n.s, 2*perRound, lt, id, true, time.Hour, time.Hour)
-		var wg sync.WaitGroup
-		started := make(chan struct{})
-		wg.Add(2)
-		go func() {
-			defer wg.Done()
-			close(started)
-			for i := 0; i < perRound; i++ {
-				deliver(lt, id, names[i], i%2 == 0, i%8 == 7)
-				if q.Finished() {
-					deliver(lt, id, "late", false, false)
-					deliver(lt, id, "late", true, true)
-					return
+	var all sync.WaitGroup
+	for w := 0; w < workers; w++ {
+		all.Add(1)
+		go func(w int) {
+			defer all.Done()
+			// a worker uses one Lamport time and id for all its rounds (the previous round's query is closed and
+			// deregistered), so the wire messages are encoded once and the delivery loop is tight
+			lt, id := serf.LamportTime(1000001+w), uint32(77+w)
+			msgs := make([][]byte, perRound)
+			for i := range msgs {
+				msgs[i] = serf.VerifEncodeQueryResponse(lt, id, names[i], i%2 == 0, nil)
+			}
+			lateResp := serf.VerifEncodeQueryResponse(lt, id, "late", false, nil)
+			lateAck := serf.VerifEncodeQueryResponse(lt, id, "late", true, nil)
+			deliver := func(raw []byte) {
+				defer func() {
+					if r := recover(); r != nil {
+						firstBad.CompareAndSwap(nil, "panic:"+strings.ReplaceAll(fmt.Sprint(r), " ", "-"))
+					}
+				}()
+				n.msg(raw)
+			}
+			for round := 1; round <= rounds/workers && firstBad.Load() == nil && time.Since(t0) < 20*time.Second; round++ {
+				q := serf.VerifRegisterQuery2(n.s, 2*perRound, lt, id, true, time.Hour, time.Hour)
+				started := make(chan struct{})
+				done := make(chan struct{})
+				go func() {
+					defer close(done)
+					<-started
+					for spin := 0; spin < (round%64)*20; spin++ {
+						_ = q.Finished()
+					}
+					q.Close()
+					q.Close()
+				}()
+				close(started)
+				for i := 0; i < perRound; i++ {
+					deliver(msgs[i])
+					if q.Finished() {
+						deliver(lateResp)
+						deliver(lateAck)
+						break
+					}
+				}
+				<-done
+				serf.VerifCloseQuery(n.s, q) // deregister (Close is idempotent)
+				seen := map[string]bool{}
+				for r := range q.ResponseCh() {
+					if seen[r.From] {
+						firstBad.CompareAndSwap(nil, "dup:response-"+hexs(r.From))
+					}
+					seen[r.From] = true
+				}
+				seenA := map[string]bool{}
+				for a := range q.AckCh() {
+					if seenA[a] {
+						firstBad.CompareAndSwap(nil, "dup:ack-"+hexs(a))
+					}
+					seenA[a] = true
 				}
 			}
-		}()
-		go func() {
-			defer wg.Done()
-			<-started
-			for spin := 0; spin < (round%64)*20; spin++ {
-				_ = q.Finished()
-			}
-			q.Close()
-			q.Close()
-		}()
-		wg.Wait()
-		serf.VerifCloseQuery(n.s, q) // deregister (Close is idempotent)
-		seen := map[string]bool{}
-		for r := range q.ResponseCh() {
-			if seen[r.From] {
-				return "dup:response-" + hexs(r.From)
-			}
-			seen[r.From] = true
-		}
-		seenA := map[string]bool{}
-		for a := range q.AckCh() {
-			if seenA[a] {
-				return "dup:ack-" + hexs(a)
-			}
-			seenA[a] = true
-		}
+		}(w)
 	}
-	if p := firstPanic.Load(); p != nil {
-		return "panic:" + strings.ReplaceAll(fmt.Sprint(p), " ", "-")
+	all.Wait()
+	if p := firstBad.Load(); p != nil {
+		return fmt.Sprint(p)
 	}
 	return "ok"
 }
@@ -397,9 +406,9 @@ func c07Gen(rng *rand.Rand, tier string) []Case {
 	for i := 0; i < nSleep; i++ {
 		out = append(out, mk(fmt.Sprintf("t%d", i), true))
 	}
-	raceRounds := 4000
+	raceRounds := 8000
 	if tier == "thorough" {
-		raceRounds = 40000
+		raceRounds = 80000
 	}
 	out = append(out, Case{ID: "race", Ops: []string{fmt.Sprintf("race %d", raceRounds)}, Nontrivial: true, Tags: []string{"race"}})
 	return out
@@ -410,7 +419,7 @@ func init() {
 		ID: "C07",
 		Rule: "each case = one real node; 1–5 concurrently open queries registered through the real newQueryResponse/registerQueryResponse (Lamport times from {5,6,7} so that times are shared and map entries overwritten; ids from 3 values; with/without acks; channel capacity 1–3; deadline far or already over) or through the real s.Query; " +
 			"6–30 steps: replies injected through NotifyMsg (matching, wrong id, wrong time, duplicates, acks to queries without acks, 5 sender names incl. empty), closes (body of the timer closure, also repeated), drains of AckCh/ResponseCh; real-timer cases let 120 ms timers fire and send replies afterwards; " +
-			"non-trivial = the case has a duplicate, a mismatching id/time and a reply after a close/deadline; distinct = distinct op sequence. one free-running race case: 4000 (thorough 40000) rounds of reply delivery by one goroutine against the public Close() from another (stops at the first send on a closed stream, 20 s cap). Interleavings of the timer with the individual steps of handleQueryResponse are not driven on the real code (theorems only)",
+			"non-trivial = the case has a duplicate, a mismatching id/time and a reply after a close/deadline; distinct = distinct op sequence. one free-running race case: 8000 (thorough 80000) rounds over 8 concurrently open queries, each with reply delivery by one goroutine against the public Close() from another (stops at the first send on a closed stream, 20 s cap). Interleavings of the timer with the individual steps of handleQueryResponse are not driven on the real code (theorems only)",
 		Gen:  c07Gen,
 		Exec: c07Exec,
 	})
